@@ -574,7 +574,19 @@ func (lb *ListenerBuilder) buildSidecarOutboundListeners(node *model.Proxy,
 
 func finalizeOutboundListeners(lb *ListenerBuilder, listenerMap map[listenerKey]*outboundListenerEntry) []*listener.Listener {
 	listeners := make([]*listener.Listener, 0, len(listenerMap))
-	for _, le := range listenerMap {
+	// Build in (bind, port) order: the order of the listeners must not depend on map iteration order.
+	keys := make([]listenerKey, 0, len(listenerMap))
+	for k := range listenerMap {
+		keys = append(keys, k)
+	}
+	sort.Slice(keys, func(i, j int) bool {
+		if keys[i].bind != keys[j].bind {
+			return keys[i].bind < keys[j].bind
+		}
+		return keys[i].port < keys[j].port
+	})
+	for _, k := range keys {
+		le := listenerMap[k]
 		// TODO: this could be outside the loop, but we would get object sharing in EnvoyFilter patches.
 		fallthroughNetworkFilters := buildOutboundCatchAllNetworkFiltersOnly(lb.push, lb.node)
 		l := buildListenerFromEntry(lb, le, fallthroughNetworkFilters)
